@@ -474,12 +474,7 @@ fn eval_conf(job: &Job) -> JobResult {
             } else {
                 let mut w = json!({"loom_outcomes": outs_json(col.outcomes.keys())});
                 if p.threads.iter().flatten().any(|x| matches!(x.k, K::NWait { .. } | K::NWaitUntil { .. })) {
-                    let r = restricted.get_or_insert_with(|| {
-                        let mut m = scm::Mode::explore(p);
-                        m.spur_yield = true;
-                        scm::explore(p, m, SC_MAX_STATES)
-                    });
-                    w["attribution"] = json!(if !r.truncated && !r.done.contains(o) { "spurious-return-yields" } else { "unattributed" });
+                    w["attribution"] = json!(d20_attribution(p, o, &mut restricted));
                 }
                 res.violations.push(viol("missing_outcome", fmt_outcome(o), "L(P) = R(P)".into(), format!("{} iterations, {} outcomes", col.iters, col.outcomes.len()), w));
             }
